@@ -496,7 +496,15 @@ fn recover(
                 page[PAGE_SIZE - 32 - 8..PAGE_SIZE - 32]
                     .copy_from_slice(&elided_children.to_bytes());
 
+                #[cfg(feature = "verif-hooks")]
+                let vt = crate::verif::before(crate::verif::IoOp::Write {
+                    fd: ht_fd.as_raw_fd(),
+                    offset: pn * PAGE_SIZE as u64,
+                    data: &page,
+                })?;
                 ht_fd.write_all_at(&page, pn * PAGE_SIZE as u64)?;
+                #[cfg(feature = "verif-hooks")]
+                crate::verif::after(vt, true);
             }
         }
     }
@@ -513,7 +521,15 @@ fn recover(
             page_data[..].copy_from_slice(meta_map.page_slice(changed_meta_page_ix));
 
             let pn = ht_offsets.meta_bytes_index(changed_meta_page_ix as u64);
+            #[cfg(feature = "verif-hooks")]
+            let vt = crate::verif::before(crate::verif::IoOp::Write {
+                fd: ht_fd.as_raw_fd(),
+                offset: pn * PAGE_SIZE as u64,
+                data: page_data,
+            })?;
             ht_fd.write_all_at(page_data, pn * PAGE_SIZE as u64)?;
+            #[cfg(feature = "verif-hooks")]
+            crate::verif::after(vt, true);
 
             page_pool.dealloc(page);
         }
